@@ -846,6 +846,22 @@ func (fr *Frame) loopHead(b *ssa.BasicBlock, st *State, r string) {
 		}
 		vc.assumeIf(r, g)
 	}
+	// snapshots at the head of the current iteration (`loop N iterlet B = e`): for the clauses of
+	// the loops and program points inside this loop's body
+	for _, l := range ls.IterLets {
+		ctx := fr.specCtx(st, fr.entry, b, 0)
+		t, err := ctx.eval(l.E)
+		if err != nil {
+			vc.unsupportedf("loop %d iterlet %s: %v", ord, l.Text, err)
+			continue
+		}
+		n := vc.fresh("iterlet_" + l.Name)
+		vc.define(n, t.Sort, t.S)
+		if fr.letVals == nil {
+			fr.letVals = map[string]Term{}
+		}
+		fr.letVals[l.Name] = Term{n, t.Sort, t.T}
+	}
 	for _, as := range ls.IterAssumes {
 		ctx := fr.specCtx(st, fr.entry, b, 0)
 		g, err := ctx.evalBool(as.E)
